@@ -60,12 +60,17 @@ def run_prop(prop, tier, seed):
     if not ns:
         rep.assumptions.append("behaviours were replayed sequentially")
     nontriv = set()
+    seen_sig = {}
     for (label, f, call, result), h in zip(items, chosen):
         o = obs.get(label)
         res = cf.evaluate(label, f, call, result, o)
         if h["expect"] or result == "replaced" or call["argv"] in ("a_null", "a_empty", "a_huge", "a_many"):
             nontriv.add(behaviour_key(h))
         for sig, what in res[prop]:
+            fullsig = sig + ":" + (f["out"] if f["state"] == "ok" else f["state"])
+            seen_sig[fullsig] = seen_sig.get(fullsig, 0) + 1
+            if seen_sig[fullsig] > 3:
+                continue                     # the same failure class has been confirmed and reported three times already
             # confirm in a fresh process before reporting
             o2, _ = cf.run_batches(b, [(label, f, call, result)], b["root"] + "/confirm", workers=1)
             res2 = cf.evaluate(label, f, call, result, o2.get(label))
